@@ -420,6 +420,20 @@ static void kick_ev()
   _exit(2);
 }
 
+// The event thread does not get where every correct implementation gets within 5 s
+// (deadlock, lost wake-up): reported like a watchdog hang, with the trace so far.
+static std::string g_wd_label;
+static void        dump_trace(const char *label);
+[[noreturn]] static void stuck(const char *why)
+{
+  printf("{\"result\":\"hang\",\"label\":\"%s\",\"why\":\"%s\",\"evphase\":%d}\n", g_wd_label.c_str(), why,
+         g_evphase.load());
+  fflush(stdout);
+  g_log_on.store(0);
+  if (W) dump_trace((g_wd_label + ".hang").c_str());
+  _exit(4);
+}
+
 // hold the event thread at `phase` (one of the four hook phases).  It is kicked
 // out of its wait if necessary.
 static void hold_ev_at(int phase)
@@ -444,7 +458,7 @@ static void hold_ev_at(int phase)
       kick_ev();
       kicked = true;
     }
-    if (now_ms() - t0 > 5000) machinery("event thread did not reach phase %d", phase);
+    if (now_ms() - t0 > 5000) stuck("event thread did not reach the requested phase");
   }
 }
 static void release_ev()
@@ -462,7 +476,7 @@ static void wait_ev_sleeping(int settle_ms)
     if (g_evphase.load(std::memory_order_acquire) == ARES_VERIF_PHASE_WAIT &&
         now_ms() - g_wait_ms.load(std::memory_order_relaxed) >= settle_ms)
       return;
-    if (now_ms() - t0 > 5000) machinery("event thread did not go to sleep");
+    if (now_ms() - t0 > 5000) stuck("event thread did not go to sleep");
     usleep(2000);
   }
 }
@@ -587,10 +601,12 @@ static void world_up(const ChanCfg &c)
 // ---------------------------------------------------------------------------
 // trace dump
 // ---------------------------------------------------------------------------
-static FILE *g_trace = NULL;
+static FILE            *g_trace = NULL;
+static std::atomic<int> dumping{0};
 
 static void dump_trace(const char *label)
 {
+  if (dumping.exchange(1)) return;   // watchdog and director at the same time
   if (!g_trace) return;
   uint32_t n = g_nev.load(std::memory_order_acquire);
   if (n > MAXEV) n = MAXEV;
@@ -679,6 +695,7 @@ static void dump_trace(const char *label)
   }
   fprintf(g_trace, "{\"k\":\"reset\"}\n");
   fflush(g_trace);
+  dumping.store(0);
 }
 
 // ---------------------------------------------------------------------------
@@ -789,7 +806,6 @@ static bool wait_cb(int id, int limit_ms)
 
 // watchdog ------------------------------------------------------------------
 static std::atomic<int32_t> g_wd_deadline{0};
-static std::string          g_wd_label;
 static void                 watchdog_thread()
 {
   for (;;) {
